@@ -349,6 +349,8 @@ class SimKernel:
         self.procs = {}      # pid -> [start, zombie]
         self.clock = 0
         self.btime = btime
+        self.denied = {}     # pid -> "EPERM" | "EACCES": what the kernel answers to kill/setpriority/… on that PID
+        self.hidden = set()  # PIDs whose /proc/<pid>/stat cannot be opened
 
     def apply(self, op):
         k = op["op"]
@@ -365,6 +367,13 @@ class SimKernel:
             self.clock += op["n"]
         elif k == "setbtime":
             self.btime = op["b"]
+        elif k == "perm":
+            if op["e"] == "allow":
+                self.denied.pop(op["pid"], None)
+            else:
+                self.denied[op["pid"]] = op["e"]
+        elif k == "hide":
+            (self.hidden.add if op["on"] else self.hidden.discard)(op["pid"])
         else:
             raise ValueError(op)
 
@@ -372,7 +381,13 @@ class SimKernel:
         return self.procs[pid][0] if pid in self.procs else None
 
 
-KERNEL_OPS = ("spawn", "exit", "reap", "tick", "setbtime")
+KERNEL_OPS = ("spawn", "exit", "reap", "tick", "setbtime", "perm", "hide")
+
+
+def hyp_of(hist):
+    """do the theorems' hypotheses hold for this history?  (btime != 0 — flag set by the generator — and
+    /proc/<pid>/stat always readable: no `hide on` event; permission changes are inside the hypotheses)"""
+    return bool(hist.get("hyp", True)) and not any(o["op"] == "hide" and o["on"] for o in hist["ops"])
 
 
 class SimPs:
@@ -382,13 +397,13 @@ class SimPs:
     turns out not to exist is answered `badCall` on both sides."""
 
     def __init__(self):
-        self.objs = []       # [pid, ghost, gone, reused]
+        self.objs = []       # [pid, ghost, gone, reused, start known (stat was readable at construction)]
         self.pmap = {}       # pid -> object index
         self.flagged = set()
 
     def _new(self, k, pid):
         if pid >= 0 and pid in k.procs:
-            self.objs.append([pid, k.procs[pid][0], False, False])
+            self.objs.append([pid, k.procs[pid][0], False, False, pid not in k.hidden])
             return True
         return False
 
@@ -399,7 +414,9 @@ class SimPs:
         if o[0] not in k.procs:
             o[2] = True
             return False
-        if k.procs[o[0]][0] != o[1]:
+        mine = o[1] if o[4] else None
+        now = k.procs[o[0]][0] if o[0] not in k.hidden else None
+        if now != mine:
             o[2] = o[3] = True
             self.flagged.add(o[0])
             return False
@@ -457,17 +474,33 @@ class Impl:
                       (resource, "prlimit", resource.prlimit)]
         self.patched = False
         self.clk = int(self.plat.CLOCK_TICKS)
+        self._stat_re = re.compile(re.escape(self.fp.root) + r"/(\d+)/stat$")
 
     # ---- OS recorders
     def _deliver(self, kind, pid, arg):
         pid = int(pid)
         if kind == "kill" and pid <= 0:
             # the OS would signal a whole process group
-            self.log.append({"kind": kind, "obj": self.cur, "pid": pid, "arg": arg, "owner": None})
+            self.log.append({"kind": kind, "obj": self.cur, "pid": pid, "arg": arg, "owner": None, "res": None})
             return
         if pid not in self.kern.procs:
             raise ProcessLookupError(errno.ESRCH, "No such process")
-        self.log.append({"kind": kind, "obj": self.cur, "pid": pid, "arg": arg, "owner": self.kern.owner(pid)})
+        res = self.kern.denied.get(pid)
+        # a refused attempt is logged too (whom psutil asked the kernel about, with which values) with the errno
+        self.log.append({"kind": kind, "obj": self.cur, "pid": pid, "arg": arg, "owner": self.kern.owner(pid), "res": res})
+        if res is not None:
+            raise OSError(getattr(errno, res), os.strerror(getattr(errno, res)))    # → PermissionError
+
+    def _open(self, fname, *a, **kw):
+        """`open` as psutil._common sees it: /proc/<pid>/stat of a listed, hidden PID cannot be opened
+        (EACCES for odd PIDs, EPERM for even ones: both are PermissionError)"""
+        m = self._stat_re.match(os.fsdecode(fname)) if isinstance(fname, (str, bytes)) else None
+        if m:
+            pid = int(m.group(1))
+            if pid in self.kern.hidden and pid in self.kern.procs:
+                e = errno.EACCES if pid % 2 else errno.EPERM
+                raise OSError(e, os.strerror(e), os.fsdecode(fname))
+        return open(fname, *a, **kw)
 
     def patch(self):
         if self.patched:
@@ -482,11 +515,14 @@ class Impl:
                 raise RuntimeError("harness: prlimit get form not expected")
             self._deliver("rlimit", pid, [int(res)] + [int(x) for x in limits])
         self.resource.prlimit = prlimit
+        self.ps._common.open = self._open       # shadows the builtin for open_binary / open_text only
         self.patched = True
 
     def unpatch(self):
         for mod, name, val in self.saved:
             setattr(mod, name, val)
+        if "open" in vars(self.ps._common):
+            del self.ps._common.open
         self.patched = False
 
     def close(self):
@@ -694,7 +730,8 @@ def compress(arg):
 
 
 def norm_eff(e):
-    return {"kind": e["kind"], "obj": e["obj"], "pid": e["pid"], "arg": compress(e["arg"]), "owner": e["owner"]}
+    return {"kind": e["kind"], "obj": e["obj"], "pid": e["pid"], "arg": compress(e["arg"]), "owner": e["owner"],
+            "res": e.get("res")}
 
 
 def spec_violation(op, im, effs, sp, prop):
@@ -735,6 +772,14 @@ def spec_violation(op, im, effs, sp, prop):
                     want = sorted(set(want))
                 if e["arg"] != want:
                     return "values %r handed to the OS, asked %r" % (e["arg"], want)
+                # C01_outcome_truthful: what the kernel answered is what the caller is told
+                if e["res"] is not None and not (im.get("kind") == "exc" and im.get("exc") == "AccessDenied"
+                                                 and im.get("pid") == sp["pid"]):
+                    return "the kernel refused (%s): AccessDenied(%d) expected" % (e["res"], sp["pid"])
+                if e["res"] is None and im.get("kind") == "exc":
+                    return "the OS carried the call out but the caller got %s" % im.get("exc")
+            if not effs and im.get("kind") != "exc":
+                return "the call returned normally although nothing was handed to the OS"
             if not sp["listed"]:
                 if effs:
                     return "effect although the object's incarnation lost the PID"
@@ -1499,7 +1544,7 @@ def correspond_for(ctx, res, prop, driver_file, n_quick, n_thorough):
                               "impl": [[x[1], x[2]] for x in r["rows"]]}
                 res.case((h["btime"], h["ops"]), nontrivial=bool(feats & NONTRIVIAL), sample=sample)
                 drift = []
-                pr = first_problem(r, prop if h.get("hyp", True) else "none", drift)
+                pr = first_problem(r, prop if hyp_of(h) else "none", drift)
                 if drift:
                     res.count("drift:setter_validation", len(drift))
                 if pr:
@@ -1532,7 +1577,7 @@ def search(ctx, res, broken):
 
 def _fails(ctx, impl, hist, prop, driver_file):
     results, _ = run_histories(ctx, impl, [hist], driver_file)
-    pr = first_problem(results[0], prop if hist.get("hyp", True) else "none")
+    pr = first_problem(results[0], prop if hyp_of(hist) else "none")
     return pr if (pr and pr[0] == "spec") else None
 
 
